@@ -219,9 +219,12 @@ func (e Engine) Run(t *simrt.Tape, c simrt.Case, x *simrt.Ctx) *simrt.Result {
 	case k <= 3:
 		class = gen.InAccepted
 		_, text = gen.GenInput(t, class)
-	case k <= 7:
+	case k <= 5:
 		class = "multi_diagnostic"
 		text = multiDiag[t.Draw(len(multiDiag))]
+	case k <= 7:
+		class = "multi_diagnostic_random"
+		text = gen.GenMultiDiag(t)
 	case k == 8:
 		class = gen.InputClasses[3+t.Draw(len(gen.InputClasses)-3)]
 		_, text = gen.GenInput(t, class)
@@ -332,7 +335,7 @@ func (e Engine) Run(t *simrt.Tape, c simrt.Case, x *simrt.Ctx) *simrt.Result {
 				}
 				sig := signature(kind, d)
 				if id := knownFinding(x, sig); id != "" {
-					res.Known[id]++
+					res.Volatile["known:"+id]++
 					continue
 				}
 				res.Violation = &simrt.Violation{Class: "real:" + sig, Message: fmt.Sprintf("two fresh emerge processes on the same specification and options differ: %s\n  flags=%q class=%s", d, flags, class), Detail: map[string]any{"input": text, "flags": flags}}
